@@ -2,13 +2,9 @@ SPEC = {
     "id": "C12",
     "level": "proof",
     "coq": {
-        "props": "Props/C12.v",
+        "props": ["Props/C12.v", "Props/C12eq.v"],
         "extract": ["Extract/ExtU32.v", "Extract/ExtTcb.v"],
-        "theorems": [
-            "C12_mod_lt_circular", "C12_mod_leq_circular", "C12_mod_leq_circular_neg",
-            "C12_leq_is_lt_or_eq", "C12_geq_is_gt_or_eq", "C12_lt_asym", "C12_bounded_is_arc",
-            "C12_lt_shift", "C12_leq_shift", "C12_bounded_shift",
-        ],
+        "theorems": "auto",
         "allow_axioms": [],
     },
     "stages": [
